@@ -67,7 +67,7 @@ XChecks(e) ==
     IN  << <<"error exactly for bad lengths or an all-zero result", wantErr, e.err>>,
            <<"result = RFC 7748 X25519(scalar, point) (projection; audited by audit-ladder events)",
                IF wantErr THEN << >> ELSE e.expected, IF e.err THEN << >> ELSE e.got>>,
-           <<"base-point fast path = generic ladder on the same scalar", TRUE, e.fastEqGeneric>> >>
+           <<"base-point fast path = generic ladder on the same scalar; array API (ScalarBaseMult / ScalarMult) = the RFC 7748 value", TRUE, e.fastEqGeneric>> >>
 
 \* ---- 8P for a decodable string of unknown discrete log: small order iff 8P = identity ----
 Mul8Checks(e) ==
